@@ -253,6 +253,9 @@ func firstLines(s string, n int) string {
 // run executes all cases; a time-limit death is confirmed once alone with a
 // longer limit before it stands (load can delay a case).
 func (p *pool) run(cases []Case) ([]*Obs, error) {
+	for i := range cases {
+		cases[i].ID = i // observations are indexed by position
+	}
 	obs := make([]*Obs, len(cases))
 	dir, err := os.MkdirTemp("", "respfuzz-")
 	if err != nil {
